@@ -343,6 +343,33 @@ theorem rotate_index_cube [OfNat α 0] (a b c : Nat) (s : Shape) (f : V3 Int →
   rw [cubeZxz_periodic]
   exact rotate_index _ (cube24_orth _ (cubeZxz_mem _ (Nat.mod_lt _ (by decide)) _ (Nat.mod_lt _ (by decide)) _ (Nat.mod_lt _ (by decide)))) s f v h
 
+/-! ### composition -/
+
+/-- **One convention means a group action.** Rotating by `R₁` and then by `R₂` is rotating once by the product `R₂ · R₁`
+(the orientation of a particle rotated twice), at every output voxel whose intermediate sample point lies in the box — any integer
+matrices, any box, no orthogonality needed; where the intermediate point falls outside, the two-step result is 0 (`rotate_outside`). -/
+theorem rotate_compose [OfNat α 0] (R₁ R₂ : M3 Int) (s : Shape) (f : V3 Int → α) (o : V3 Int)
+    (h : s.inBox (srcCoord R₂.transpose s.centre o) = true) :
+    rotateBy R₂ s (rotateBy R₁ s f) o = rotateBy (R₂ * R₁) s f o := by
+  unfold rotateBy rotateF
+  simp only [h, if_true, M3.transpose_mul, srcCoord_mul]
+
+/-- the 24 cube rotations are closed under products and inverses (a group): all 576 products / 24 transposes, kernel-evaluated -/
+theorem cube24_closed : ∀ R₁ ∈ cube24, ∀ R₂ ∈ cube24, R₂ * R₁ ∈ cube24 := by decide +kernel
+
+theorem cube24_transpose_mem : ∀ R ∈ cube24, R.transpose ∈ cube24 := by decide +kernel
+
+/-- two right-angle rotations in a row permute voxels like the single right-angle rotation `R₂ · R₁`: density at `c + v` ends at
+`c + R₂ R₁ v` (when `c + v` and the intermediate `c + R₁ v` are voxels of the box) -/
+theorem rotate_compose_cube [OfNat α 0] (R₁ R₂ : M3 Int) (h₁ : R₁ ∈ cube24) (h₂ : R₂ ∈ cube24) (s : Shape) (f : V3 Int → α)
+    (v : V3 Int) (h : s.inBox (s.centre + v) = true) (h' : s.inBox (s.centre + R₁.apply v) = true) :
+    R₂ * R₁ ∈ cube24 ∧ rotateBy R₂ s (rotateBy R₁ s f) (s.centre + (R₂ * R₁).apply v) = f (s.centre + v) := by
+  refine ⟨cube24_closed R₁ h₁ R₂ h₂, ?_⟩
+  have hO := M3.Orth.mul (cube24_orth R₂ h₂) (cube24_orth R₁ h₁)
+  rw [rotate_compose, rotate_index (R₂ * R₁) hO s f v h]
+  rw [M3.apply_mul, srcCoord_active_ring (cube24_orth R₂ h₂)]
+  exact h'
+
 /-! ### windows -/
 
 /-- `np.floor(coord - s/2)` is computed exactly: `start ≤ coord - s/2 < start + 1` for `coord = num/den` -/
